@@ -218,6 +218,10 @@ func genCompilable(g *G) *cFile {
 			} else if hasMux && g.R.Intn(2) == 0 {
 				sg.muxed = true
 				sg.muxVal = g.R.Intn(8)
+				if g.R.Intn(3) == 0 {
+					// selector values around the byte and word boundaries of a wide multiplexer
+					sg.muxVal = []int{255, 256, 257, 300, 511, 512, 65535, 65536, 1 << 24, 1<<31 - 1}[g.R.Intn(10)]
+				}
 			}
 			sg.start = g.R.Intn(64)
 			if g.R.Intn(20) == 0 {
